@@ -320,8 +320,9 @@ def suppressClause (m o : Record) (suppressed : Bool) : Option String :=
     else none
   else
     if m.sameRecord o && decide (2 * o.ttl > m.ttl) then
-      -- D18: the code's `matches` also compares the cache-flush bit, the owner's letter case and
-      -- (addresses) the interface; a listed record that differs only there is the known finding
+      -- (the second clause names the shape of the repaired defect D18: a listed record that
+      -- differs only in the cache-flush bit, the owner's letter case or - addresses - the
+      -- interface; kept as its own clause so that a regression is named)
       if m.matchesRec o then some "C10.known-answer-not-honoured"
       else some "C10.known-answer-not-honoured-flush-case-or-interface"
     else none
